@@ -676,6 +676,97 @@ def run_epoch_forms(x):
 
 REPLACE_NONE_FORM = "replace_tzinfo_none"
 
+# ------------------------------------------------------------------------------------------ ISO text battery
+# (shared with the check)  Every spelling datetime.fromisoformat accepts, and digit-only texts that it refuses.
+# Reference for a text = the standard datetime.fromisoformat on the same text, naive => UTC; a text the reference
+# refuses must be refused by the field type too (never read as something else, e.g. an epoch number).
+
+def iso_reference(text):
+    """-> observation (wall, offset with naive => 0) or None when the standard reader refuses the text"""
+    try:
+        r = _pydt.datetime.fromisoformat(text)
+    except (ValueError, TypeError):
+        return None
+    o = _obs(r)
+    return o[:7] + (0 if o[7] is None else o[7],)
+
+
+def iso_spellings(wall, off, rnd=None, limit=None):
+    """spellings of (wall clock, offset in microseconds or None) in the formats fromisoformat knows.  Some spellings
+    drop information (a shorter fraction, HH:MM only): the reference decides what each text means."""
+    y, m, d, h, mi, sc, us = wall
+    dates = ["%04d-%02d-%02d" % (y, m, d), "%04d%02d%02d" % (y, m, d)]
+    try:
+        iy, iw, idow = _pydt.date(y, m, d).isocalendar()
+        if 1 <= iy <= 9999:
+            dates += ["%04d-W%02d-%d" % (iy, iw, idow), "%04dW%02d%d" % (iy, iw, idow)]
+    except ValueError:
+        pass
+    fr = "%06d" % us
+    fracs = [""] if us == 0 else []
+    fracs += ["." + fr, "," + fr] + ["." + fr[:k] for k in (1, 2, 3, 4, 5)] + ["." + fr + "789"]
+    times = []
+    for f in fracs:
+        times += ["%02d:%02d:%02d%s" % (h, mi, sc, f), "%02d%02d%02d%s" % (h, mi, sc, f)]
+    times += ["%02d:%02d" % (h, mi), "%02d%02d" % (h, mi), "%02d" % h]
+    offs = [""]
+    if off is not None:
+        a = abs(off)
+        sg = "-" if off < 0 else "+"
+        hh, mm, ss, uu = a // 3600000000, a // 60000000 % 60, a // 1000000 % 60, a % 1000000
+        offs = ["%s%02d:%02d" % (sg, hh, mm), "%s%02d%02d" % (sg, hh, mm), "%s%02d" % (sg, hh)]
+        if ss or uu:
+            offs += ["%s%02d:%02d:%02d" % (sg, hh, mm, ss), "%s%02d%02d%02d" % (sg, hh, mm, ss)]
+        if uu:
+            offs += ["%s%02d:%02d:%02d.%06d" % (sg, hh, mm, ss, uu), "%s%02d%02d%02d.%06d" % (sg, hh, mm, ss, uu)]
+        if off == 0:
+            offs += ["Z", "z"]
+    seps = ["T", " ", "t", "_"]
+    out = list(dates)                       # date only
+    combos = [(dt, sp, tm, of) for dt in dates for sp in seps for tm in times for of in offs]
+    if rnd is not None and limit is not None and len(combos) > limit:
+        combos = rnd.sample(combos, limit)
+    out += [dt + sp + tm + of for dt, sp, tm, of in combos]
+    return out
+
+
+DIGIT_TEXTS = ["1", "12", "123", "1234", "12345", "123456", "1234567", "12345678", "123456789", "1234567890", "12345678901",
+               "123456789012", "1234567890123", "12345678901234", "0", "00000000", "20240229", "19691231", "00010101", "99991231",
+               "19700101", "20230229", "20241301", "1700000000", "17000000001", "4294967296", "20240229101112", "2024022910",
+               "000101", "202402", "0001", "9999"]
+
+
+def iso_probe_texts():
+    """the fixed battery used for the observed fact about the text branch of datetime.__new__"""
+    import random
+    rnd = random.Random(13)
+    texts = list(DIGIT_TEXTS)
+    for wall, off in (((2024, 2, 29, 10, 11, 12, 123456), None), ((2024, 2, 29, 0, 0, 0, 0), 0), ((1969, 12, 31, 23, 59, 59, 999999), -1000000),
+                      ((1, 1, 1, 0, 0, 0, 0), 19800000000), ((9999, 12, 31, 23, 59, 59, 0), -(4 * 3600 + 56 * 60 + 2) * 1000000),
+                      ((2021, 1, 3, 5, 0, 0, 500000), 3600000000 + 1500000), ((2020, 12, 31, 12, 30, 0, 0), None)):
+        texts += iso_spellings(wall, off, rnd, 40)
+    seen = set()
+    return [t for t in texts if not (t in seen or seen.add(t))]
+
+
+def iso_text_agrees(ft_datetime, text, as_bytes):
+    """None when the field type reads `text` as the reference does (same value, or both refuse), else a description"""
+    want = iso_reference(text)
+    try:
+        got = _obs(ft_datetime(text.encode() if as_bytes else text))
+    except Exception as e:  # noqa
+        got = None
+        err = "%s: %s" % (type(e).__name__, e)
+    if want is None and got is None:
+        return None
+    if want is None:
+        return "%r is not ISO text (the standard reader refuses it) but is read as %r" % (text, got)
+    if got is None:
+        return "%r means %r but is refused (%s)" % (text, want, err)
+    if got != want:
+        return "%r means %r but is read as %r" % (text, want, got)
+    return None
+
 # ------------------------------------------------------------------------------------------ OBSERVED facts
 # Each fact below is derived from what the real functions DO on purpose-built probes.  The ast recognisers above are
 # kept as cross-checks only: recognised-and-contradicting -> Unsupported; not recognised -> a note in the generated file.
@@ -945,6 +1036,12 @@ def observe_new():
                     if _obs(ft.datetime(arg)) != want:
                         text_ok = False
                 except Exception:  # noqa
+                    text_ok = False
+        # every spelling fromisoformat knows (basic and week dates, basic times, comma, short fractions, Z / +HHMM / +HH,
+        # any separator) and digit-only texts: same value as the standard reader, or refused like it - as str and bytes
+        for t in iso_probe_texts():
+            for as_bytes in (False, True):
+                if iso_text_agrees(ft.datetime, t, as_bytes) is not None:
                     text_ok = False
     finally:
         if old is None:
